@@ -154,7 +154,8 @@ func caseC12(c *Ctx) {
 				if comp%2 == 0 && len(sp.comps) == 0 {
 					sp.comps = Pick(c.R, choices[1:])
 				}
-				if i > 0 && c.R.Chance(0.4) {
+				// every fourth composition starts as an empty Dispatch: all of its sub-listeners are added later
+				if (i > 0 || comp%4 == 1) && (c.R.Chance(0.4) || comp%4 == 1) {
 					sp.addedAt = 1 + c.R.Intn(len(ref.Log)-1)
 				}
 				specs = append(specs, sp)
